@@ -413,3 +413,27 @@ MUTANTS.append({'prop': 'C12', 'id': 'reformatted-tree', 'kind': 'T', 'edits': '
 K('C16', 'lbp-identity-across-containers', [(FG, "                for v in cl:\n                    complement = [var for var in cl if var is not v]", "                for v in [a for a in self.domain if a in cl]:\n                    complement = [var for var in cl if var is not v]")], 'identity-compare')
 T('C16', 'lbp-equality-compare', [(FG, "                    complement = [var for var in cl if var is not v]", "                    complement = [var for var in cl if var != v]")])
 T('C14', 'sub-via-neg', [(F, "        other = Factor(other.domain, np.where(other.values==-np.inf, 0, -other.values))\n        return self + other", "        neg = Factor(other.domain, np.where(other.values==-np.inf, 0, -other.values))\n        return self + neg")])
+
+# ---- round-2 strengthening: restart point of the local line search (C18), value-based rules (C07/C09/C12/C15) ----------------
+_IADD = ("    def __sub__(self, other):\n        return self + -1*other\n",
+         "    def __sub__(self, other):\n        return self + -1*other\n\n    def __iadd__(self, other):\n        for cl in self:\n            self[cl] = self[cl] + (other if np.isscalar(other) else other[cl])\n        return self\n\n    def __isub__(self, other):\n        return self.__iadd__(-1*other)\n")
+K('C18', 'inplace-step-mutates-restart-point', [(CV, _IADD[0], _IADD[1]), (LI, "            theta = theta - alpha*dL\n", "            theta -= alpha*dL\n")], 'restart-point')
+T('C18', 'augmented-step-without-inplace-operator', [(LI, "            theta = theta - alpha*dL\n", "            theta -= alpha*dL\n")])
+T('C18', 'inplace-operator-unused', [(CV, _IADD[0], _IADD[1])])
+K('C18', 'restart-point-combined-in-place', [(LI, "            l, dL = self._marginal_loss(mu)\n            theta = theta - alpha*dL\n", "            l, dL = self._marginal_loss(mu)\n            theta.combine(-alpha*dL)\n")], 'restart-point')
+T('C18', 'feasibility-comprehension', [('src/mbi/region_graph.py', "        ans = 0\n        count = 0\n        for r in self.cliques:\n            for s in self.children[r]:\n                x = mu[r].project(s).datavector()\n                y = mu[s].datavector()\n                err = np.linalg.norm(x-y, 1)\n                ans += err\n                count += 1\n        return 0 if count==0 else ans/count",
+   "        errors = [np.linalg.norm(mu[r].project(s).datavector() - mu[s].datavector(), 1) for r in self.cliques for s in self.children[r]]\n        if len(errors) == 0:\n            return 0\n        return sum(errors) / len(errors)")])
+K('C18', 'feasibility-max-instead-of-mean', [('src/mbi/region_graph.py', "        return 0 if count==0 else ans/count", "        return 0 if count==0 else ans")], 'feasibility-form')
+T('C09', 'pi-guard-clause-and-pairs', [(PI, "        if np.allclose(Q.T.dot(v), o):\n            variances = np.append(variances, noise**2 * np.dot(v, v))\n            estimates = np.append(estimates, np.dot(v, y))",
+   "        if not np.allclose(Q.T.dot(v), o):\n            continue\n        variances = np.append(variances, noise**2 * v.dot(v))\n        estimates = np.append(estimates, v.dot(y))")])
+T('C09', 'mi-floor-as-conditional', [(MI, "        return max(1, estimate)", "        return estimate if estimate > 1 else 1")])
+K('C09', 'mi-floor-conditional-wrong-side', [(MI, "        return max(1, estimate)", "        return estimate if estimate < 1 else 1")], 'floor-and-default')
+T('C07', 'rho-search-mirrored-tuple-update', [('mechanisms/cdp2adp.py', "        if cdp_delta(rho,eps)<=delta:\n            rhomin=rho\n        else:\n            rhomax=rho", "        rhomin,rhomax = (rho,rhomax) if delta>=cdp_delta(rho,eps) else (rhomin,rho)")])
+K('C07', 'rho-search-tuple-update-swapped', [('mechanisms/cdp2adp.py', "        if cdp_delta(rho,eps)<=delta:\n            rhomin=rho\n        else:\n            rhomax=rho", "        rhomin,rhomax = (rhomin,rho) if delta>=cdp_delta(rho,eps) else (rho,rhomax)")], 'sound-side')
+T('C15', 'marginalize-via-invert', [(DOM, "        proj = [a for a in self.attrs if not a in attrs]\n        return self.project(proj)", "        return self.project(self.invert(attrs))")])
+K('C15', 'marginalize-via-canonical', [(DOM, "        proj = [a for a in self.attrs if not a in attrs]\n        return self.project(proj)", "        return self.project(self.canonical(attrs))")], 'order-filter')
+T('C15', 'drop-via-domain-invert', [(DS, "        proj = [c for c in self.domain if c not in cols]\n        return self.project(proj)", "        return self.project(self.domain.invert(cols))")])
+T('C12', 'dependencies-as-set-comprehension', [(JT, "        for m1 in messages:\n            for m2 in messages:\n                if m1[1] == m2[0] and m1[0] != m2[1]:\n                    edges.add( (m1, m2) )\n", "        edges = {(m1, m2) for m1 in messages for m2 in messages if m1[1] == m2[0] and m1[0] != m2[1]}\n")])
+K('C12', 'dependencies-comprehension-weakened', [(JT, "        for m1 in messages:\n            for m2 in messages:\n                if m1[1] == m2[0] and m1[0] != m2[1]:\n                    edges.add( (m1, m2) )\n", "        edges = {(m1, m2) for m1 in messages for m2 in messages if m1[1] == m2[0]}\n")], 'schedule')
+T('C12', 'weighted-edges-from-generator', [(JT, "        for c1, c2 in itertools.combinations(cliques, 2):\n            wgt = len(set(c1) & set(c2))\n            complete.add_edge(c1, c2, weight=-wgt)\n", "        complete.add_weighted_edges_from((c1, c2, -len(set(c1) & set(c2))) for c1, c2 in itertools.combinations(cliques, 2))\n")])
+K('C12', 'weighted-edges-positive-weight', [(JT, "        for c1, c2 in itertools.combinations(cliques, 2):\n            wgt = len(set(c1) & set(c2))\n            complete.add_edge(c1, c2, weight=-wgt)\n", "        complete.add_weighted_edges_from((c1, c2, len(set(c1) & set(c2))) for c1, c2 in itertools.combinations(cliques, 2))\n")], 'tree-connected')
